@@ -148,6 +148,20 @@ def native(seed=0):
                 for nm, a in d.items():
                     if not np.array_equal(a, full[s_][nm]):
                         bad.append(dict(what="frames with the same step label differ between recording configurations", step=s_, field=nm, config=(k, probes, prog)))
+        # adaptive stepping: the step-size controller must not see the recording cadence either
+        fulla = {}
+        for ci, k in enumerate((3, 5, 30)):
+            dev = tdgl.Device("d", layer=layer, film=film, terminals=[src, drn], probe_points=[(-1, 0), (1, 0)], length_units="um")
+            dev.make_mesh(max_edge_length=0.5, smooth=5)
+            opts = tdgl.SolverOptions(solve_time=1.5, dt_init=1e-3, adaptive=True, save_every=k, output_file=os.path.join(td, f"a{ci}.h5"))
+            sol = tdgl.solve(dev, opts, applied_vector_potential=0.2, terminal_currents=dict(source=4.0, drain=-4.0))
+            n += 1
+            for s_, d in frames(sol.path).items():
+                fulla.setdefault(s_, d)
+                for nm, a in d.items():
+                    if not np.array_equal(a, fulla[s_][nm]):
+                        bad.append(dict(what="adaptive run: frames with the same step label differ between recording cadences", step=s_, field=nm, save_every=k))
+                        break
         # split and resume (fixed step): 70 steps = 30 + 40
         dev = tdgl.Device("d", layer=layer, film=film, terminals=[src, drn], probe_points=[(-1, 0), (1, 0)], length_units="um")
         dev.make_mesh(max_edge_length=0.5, smooth=5)
